@@ -250,6 +250,34 @@ def matrix_program(base, k):
     return Prog(items)
 
 
+# the witness of the REPAIRED finding C04-ts-double-nonfield (KNOWN_FINDINGS.jsonl, status fixed): it stays in the stream of every run
+# and must pass like any other input - TypeScript wrote `c?: string` / `string | undefined` for Option<Option<String>> at a newtype
+# payload / alias target (no `| null`), the same text as for Option<String>.  There is no known class for it any more.
+FIXED_WITNESS_SRC = ('#[typeshare]\n#[serde(tag = "t", content = "c")]\npub enum E { C(Option<Option<String>>) }\n\n'
+                     '#[typeshare]\npub type A2 = Option<Option<String>>;\n')
+FIXED_WITNESS_LINES = ['\t| { t: "C", c?: string | null };', 'export type A2 = string | null | undefined;']
+
+
+def fixed_witness_program():
+    """the same witness as a structured program (judged at every language, both entries, against its twin)"""
+    nm = Namer()
+    t = opt(opt(('prim', 'String')))
+    v, a = nm('V'), nm('A')
+    return Prog([('enum', 'E900', [], [('newtype', v, Cell(v, 'payload', t))]), ('alias', a, [], Cell(a, 'alias', t))])
+
+
+def judge_fixed_witness(chk):
+    r = vf.impl([{'cmd': 'generate', 'lang': 'typescript', 'cfg': {}, 'src': FIXED_WITNESS_SRC, 'target_os': []}])[0]
+    text = r.get('ok') if isinstance(r, dict) else None
+    chk.evaluations += 1
+    chk.count('fixed_witness')
+    missing = [l for l in FIXED_WITNESS_LINES if text is None or l not in text.split('\n')]
+    if missing:
+        chk.violation('fixed-C04-ts-double-nonfield', {'source': FIXED_WITNESS_SRC, 'lang': 'typescript', 'cfg': {}, 'output': (text or str(r))[:2000], 'missing_lines': missing},
+                      'witness of the repaired finding C04-ts-double-nonfield: TypeScript does not write `| null` for Option<Option<String>> at the newtype payload / alias '
+                      'target, so Option<Option<T>> is not distinguishable from Option<T> there (expected lines: ' + ' / '.join(repr(l) for l in missing) + ')')
+
+
 GO_OVERRIDES = ['uint', 'Custom', '[]byte']     # no leading `*`: a `*`-headed user text would be read as typeshare's marker by the text reader
 
 
@@ -444,7 +472,9 @@ def rows_of_text(lang, text):
             rows += [member_row(lang, d['name'], 'field', m, init_types) for m in d['members']]
         elif d['kind'] == 'alias':
             if lang == 'typescript':
-                rows.append([d['name'], '', 'alias', bool(d.get('optional')), bool(d.get('optional')), False, d['type'], d['type']])
+                # `type A = T[ | null][ | undefined]`: the ` | null` of Option<Option<T>> is read like a member's
+                rows.append([d['name'], '', 'alias', bool(d.get('optional')), bool(d.get('optional')),
+                             bool((d.get('optional_detail') or {}).get('null_union')), d['type'], d['type']])
             else:
                 tm, base = strip_head(d['type_raw'], lang)
                 rows.append([d['name'], '', 'alias', tm, tm, False, base, d['type_raw']])
@@ -461,7 +491,9 @@ def rows_of_text(lang, text):
                     continue
                 if v['payload'] == 'newtype':
                     if lang == 'typescript':
-                        rows.append([d['name'], v['name'], 'payload', bool(v.get('optional')), bool(v.get('optional')), False, v['type'], v['type']])
+                        # `{ tag: "V", content[?]: T[ | null] }`
+                        rows.append([d['name'], v['name'], 'payload', bool(v.get('optional')), bool(v.get('optional')),
+                                     bool((v.get('optional_detail') or {}).get('null_union')), v['type'], v['type']])
                     else:
                         tm, base = strip_head(v['type_raw'], lang)
                         raw = v['type_raw'][1:-1] if lang == 'swift' and v['type_raw'][:1] == '`' else v['type_raw']
@@ -501,14 +533,17 @@ def run(chk):
                        'the property\'s quantifier and are not generated; a Go type override replaces the type text by the user\'s: only the tag part (omitempty) is judged there']
     chk.notes += [
         'note (not a violation): Kotlin prints `T?? = null` for Option<Option<T>> - legal, redundant; the property asks for a distinguishable double Option only of TypeScript',
-        'note (not a violation): a TypeScript alias of Option<T> is `type A = T | undefined` - the alias form of the optional idiom (a type has no `?` key)',
+        'note (not a violation): a TypeScript alias of Option<T> is `type A = T | undefined` - the alias form of the optional idiom (a type has no `?` key); '
+        'Option<Option<T>> is `T | null | undefined` there and `content?: T | null` at a newtype payload (finding C04-ts-double-nonfield, repaired: its witness runs first and must pass)',
         'note (outside the quantifier): a Kotlin/Swift/Scala/Go/TS type override on an Option field keeps the marker suffix around the user text (Kotlin `Any = null`); overrides are not generated',
         'note (outside the quantifier): serde(default) on the field of a newtype variant is ignored by typeshare - and by serde_derive itself (deserialize_newtype_variant never consults it)']
     chk.prepare(need_cli=False)
     if not chk.harness_ok:
         return
     rng = chk.rng
-    progs = [('matrix', matrix_program(b, k), {l: dict(BASE_CFG.get(l, {})) for l in LANGS}) for k, b in enumerate(BASES)]
+    judge_fixed_witness(chk)
+    progs = [('fixedwitness', fixed_witness_program(), {l: dict(BASE_CFG.get(l, {})) for l in LANGS})]
+    progs += [('matrix', matrix_program(b, k), {l: dict(BASE_CFG.get(l, {})) for l in LANGS}) for k, b in enumerate(BASES)]
     for k, w in enumerate(WRAPS + ['&']):
         progs.append(('wrapper', wrapper_program(w, BASES[(3 * k) % 16], k), {l: dict(BASE_CFG.get(l, {})) for l in LANGS}))
     # Go only: the marker matrix and the wrapper matrix once more under no_pointer_slice = true (Option<Vec<T>> is `[]T` + omitempty),
